@@ -264,7 +264,7 @@ func check(c *enum.Ctx, k kase) {
 }
 
 func run(c *enum.Ctx) {
-	c.Rule("k=4: every sequence of length 5..7 (thorough 8) over {a,c,g,t,n} and every sequence of length 5..6 over {a,C,g,T,n,N} (case), every one of the 256 words queried, every sub-range [start,end) iterated; k=5..7: every sequence of length k+1..k+2 over {a,t,n}; k=8..10: every sequence of length k+1 over {a,n} (thorough {a,t,n}); RNA alphabet on fixed words; for every k<=6 (thorough 8) every word value for Format/KmerOf/GCof/ComplementOf against string operations; oracle: brute-force windows; non-trivial = sequences with at least one valid window")
+	c.Rule("every index also iterates four foreign sequences (clean, with n/-/N/*, mixed case, with bytes 0x00/0x80/0xff); k=4: every sequence of length 5..7 (thorough 8) over {a,c,g,t,n} and every sequence of length 5..6 over {a,C,g,T,n,N} (case), every one of the 256 words queried, every sub-range [start,end) iterated; k=5..7: every sequence of length k+1..k+2 over {a,t,n}; k=8..10: every sequence of length k+1 over {a,n} (thorough {a,t,n}); RNA alphabet on fixed words; for every k<=6 (thorough 8) every word value for Format/KmerOf/GCof/ComplementOf against string operations; oracle: brute-force windows; non-trivial = sequences with at least one valid window")
 	c.Assume("positions of a k-mer are compared as sets", "a range shorter than k may return nil or an error but must not call back")
 	var cases []kase
 	maxL := 7
